@@ -33,11 +33,16 @@ struct Gen : std::streambuf, verif::Observer {
 		if (s.GetMode() != NiStreamReversible::Mode::Reading) return false;
 		pending = k;
 		pendingRef = (n == 4 && live.count(p) > 0);
+		if (pendingRef) readRefs.push_back(p);
 		return false;
 	}
-	void StringRef(NiIStream* is, NiOStream*, NiStringRef*) override {
-		if (is) pendingStr = true;
+	void StringRef(NiIStream* is, NiOStream*, NiStringRef* sr) override {
+		if (is) {
+			pendingStr = true;
+			readStrs.push_back(sr);
+		}
 	}
+	std::vector<const void*> readRefs, readStrs;
 
 	uint64_t small(uint64_t hi) { return mode == 1 ? std::min<uint64_t>(hi, 2) : (mode == 0 ? rng() % 2 : rng() % (hi + 1)); }
 
@@ -164,9 +169,12 @@ bool synthFile(NifFile& nif, const std::string& type, const std::string& ver, in
 		info->bytesServed = gen.served;
 		info->exhausted = gen.exhausted;
 		info->scalars = gen.scalarOrd;
+		info->readRefs = gen.readRefs;
+		info->readStrs = gen.readStrs;
 	}
 	if (gen.exhausted || !obj) return false;
 	uint32_t id = hdr.AddBlock(std::move(obj));
+	if (info) info->blockId = id;
 	// make the block reachable so that default saves keep it: hang it below the root when it is an AV object, else
 	// reference it from a keeper extra-data-less node through the root's extra data list where the type allows
 	if (auto av = hdr.GetBlock<NiAVObject>(id))
